@@ -268,7 +268,32 @@ def persist_force_fail_history(rng):
     return {"ops": ops, "sources": [101, 102]}
 
 
-OPTS["C17"]["templates"] = [persist_shapes_history, persist_force_fail_history]
+def persist_grows_dry_history(rng):
+    """a persist task that already has rows GAINS a dependency although its source does not change (persisted: all
+    nodes exist, one has no row yet); and a dry run between the edit and the real build (a dry run records nothing:
+    the real build still reports PERSISTENCE, the one after it unchanged)"""
+    def tk(i, deps, prods, **kw):
+        d = {"id": i, "module": 1, "deps": deps, "prods": prods, "mver": 0, "skip": False, "skipifs": [], "persist": False, "prio": 0,
+             "marks": [], "attrs": [], "after_fn": [], "after_expr": None, "use_decorator": False}
+        d.update(kw)
+        return d
+    cfg = {"force": False, "dry_run": False, "max_failures": None, "expression": "", "marker_expression": "", "capture": "no"}
+    if rng.random() < 0.5:
+        def proj(on):
+            return [tk(1, [101] + ([102] if on else []), [111], persist=True, opt=[102], use_decorator=True), tk(2, [111], [112])]
+        def b(on, **kw):
+            return {"op": "build", "tasks": proj(on), "cfg": dict(cfg, **kw), "faults": {}}
+        ops = [{"op": "set", "n": 101, "c": rng.randint(1, 50)}, {"op": "set", "n": 102, "c": rng.randint(1, 50)}, b(False), b(True), b(True)]
+    else:
+        ts = [tk(1, [101], [111], persist=True), tk(2, [111], [112])]
+        def b(**kw):
+            return {"op": "build", "tasks": ts, "cfg": dict(cfg, **kw), "faults": {}}
+        edit = rng.choice([{"op": "set", "n": 101, "c": rng.randint(51, 99)}, {"op": "set", "n": 111, "c": rng.randint(500, 600)}])
+        ops = [{"op": "set", "n": 101, "c": rng.randint(1, 50)}, b(), edit, b(dry_run=True), b(), b()]
+    return {"ops": ops, "sources": [101, 102]}
+
+
+OPTS["C17"]["templates"] = [persist_shapes_history, persist_force_fail_history, persist_grows_dry_history]
 OPTS["C17"]["ntemplates"] = 6
 def retamper_history(rng):
     """a product is overwritten by hand, the build repairs it, and it is overwritten with the SAME content again"""
